@@ -114,6 +114,16 @@ Theorem C12_global_random_written_refuted_on_current :
 Proof. exact global_random_written_refuted_on_current. Qed.
 Print Assumptions C12_global_random_written_refuted_on_current.
 
+(* State.copy allocates fresh cells (state, Config, both generators) and keeps every older state *)
+Theorem C12_state_copy_fresh : forall s h,
+  let w := fst (state_deepcopy s h) in
+  let h' := snd (state_deepcopy s h) in
+  w = h_nst h /\ s_cfg (h_st h' w) = h_ncfg h /\ rng_of h' w = h_nrng h /\ py_of h' w = h_npy h
+  /\ s_data (h_st h' w) = s_data (h_st h s)
+  /\ (forall s0, (s0 < h_nst h)%nat -> h_st h' s0 = h_st h s0).
+Proof. exact state_deepcopy_fresh. Qed.
+Print Assumptions C12_state_copy_fresh.
+
 (* not claimed: Config.copy shares rng and _python_rng on purpose, so their states advance *)
 Theorem C12_caller_rng_shared_by_design :
   exists h c, (c < h_ncfg h)%nat /\
